@@ -176,6 +176,7 @@ type pStep struct {
 	Inside *pStep     `json:"inside"` // a management op performed from inside rule HoldAt of this request (P.Do)
 	Extra  []string   `json:"extra"`  // extra keys injected with the request (C06)
 	Flag   bool       `json:"flag"`   // Req.Flag: rules of kind "cond" return only when it is set
+	NilTag bool       `json:"nil_tag"` // the *StopTag* wrappers are handed a nil tag: the engine dereferences it and panics INSIDE the pooled call
 	RespOnly bool     `json:"resp_only"` // ExecuteRulesWithSpecifiedEM("", nil, "Req", req): no request object, the response slot carries the data
 	WaitMs int        `json:"wait_ms"`
 }
@@ -540,6 +541,9 @@ func runPoolScenario(sc *pScenario) pObs {
 			}
 			tag := &engine.Stag{}
 			data["stag"] = tag // rules of kind "stop" set it; only the *StopTag* wrappers look at it
+			if st.NilTag {
+				tag = nil
+			}
 			stc := *st
 			go func() {
 				defer close(lv.done)
